@@ -3,6 +3,7 @@
 use serde::{Deserialize, Serialize};
 
 use crate::checks::{self, Verdict};
+use crate::clisim;
 use crate::gen::{self, Profile};
 use crate::model::*;
 use crate::pipeprops;
@@ -24,9 +25,13 @@ pub enum AnyCase {
     Shuttle(tfbsim::ShuttleCase),
     Text(textsim::TextCase),
     Sql(textsim::SqlCase),
+    Cli(clisim::CliCase),
+    Conv(clisim::ConvCase),
+    Merge(clisim::MergeCase),
+    Avg(clisim::AvgCase),
 }
 
-pub const ALL_PROPS: &[&str] = &["C01", "C02", "C03", "C04", "C05", "C06", "C10", "C07", "C08", "C09", "C11", "C12", "C13", "C14", "C18", "C19"];
+pub const ALL_PROPS: &[&str] = &["C01", "C02", "C03", "C04", "C05", "C06", "C10", "C07", "C08", "C09", "C11", "C12", "C13", "C14", "C15", "C16", "C17", "C18", "C19"];
 
 pub struct Budget {
     pub quick_runs: u64,
@@ -46,6 +51,18 @@ pub fn budget(prop: &str) -> Budget {
         "C05" => Budget {
             quick_runs: 640,
             thorough_runs: 40_000,
+        },
+        "C15" => Budget {
+            quick_runs: 3_000,
+            thorough_runs: 150_000,
+        },
+        "C16" => Budget {
+            quick_runs: 1_500,
+            thorough_runs: 80_000,
+        },
+        "C17" => Budget {
+            quick_runs: 2_000,
+            thorough_runs: 100_000,
         },
         "C18" => Budget {
             quick_runs: 30_000,
@@ -116,14 +133,27 @@ fn profile_for(prop: &str) -> Profile {
 pub fn gen_case(prop: &str, seed: u64, idx: u64, tier: &str) -> AnyCase {
     let mut rng = Rng::derive(seed, idx, prop);
     match prop {
-        "C11" => return AnyCase::Multi(pipeprops::gen_c11(&mut rng, tier)),
+        "C11" => {
+            if idx % 5 == 4 {
+                return AnyCase::Conv(clisim::gen_conv(&mut rng));
+            }
+            return AnyCase::Multi(pipeprops::gen_c11(&mut rng, tier));
+        }
+        "C15" => return AnyCase::Merge(clisim::gen_merge(&mut rng)),
+        "C16" => return AnyCase::Cli(clisim::gen_cli(&mut rng, prop)),
+        "C17" => return AnyCase::Avg(clisim::gen_avg(&mut rng)),
         "C13" => return AnyCase::Pipe(pipeprops::gen_c13(&mut rng)),
         "C14" => return AnyCase::Enum(pipeprops::gen_c14(&mut rng)),
         "C03" | "C04" => return AnyCase::Read(readsim::gen_read_case(&mut rng, prop)),
         "C05" => return AnyCase::Read(readsim::gen_c05(&mut rng, idx)),
         "C10" => return AnyCase::Enc(readsim::gen_c10(&mut rng)),
         "C18" => return AnyCase::Text(textsim::gen_text_case(&mut rng)),
-        "C19" => return AnyCase::Sql(textsim::gen_sql(&mut rng, idx)),
+        "C19" => {
+            if idx % 3 == 0 {
+                return AnyCase::Cli(clisim::gen_cli(&mut rng, prop));
+            }
+            return AnyCase::Sql(textsim::gen_sql(&mut rng, idx));
+        }
         "C12" => {
             if idx % 40 == 0 {
                 return AnyCase::Shuttle(tfbsim::ShuttleCase {
@@ -196,6 +226,10 @@ pub fn run_case(prop: &str, case: &AnyCase) -> RunReport {
         AnyCase::Shuttle(sc) => tfbsim::run_shuttle(sc),
         AnyCase::Text(tc) => textsim::run_text_case(tc),
         AnyCase::Sql(sc) => textsim::run_sql(sc),
+        AnyCase::Cli(c) => clisim::run_cli(c),
+        AnyCase::Conv(c) => clisim::run_conv(c),
+        AnyCase::Merge(c) => clisim::run_merge(c),
+        AnyCase::Avg(c) => clisim::run_avg(c),
         AnyCase::Pipe(pc) if prop == "C13" => pipeprops::run_c13(pc),
         AnyCase::Pipe(pc) => {
             let out = pipesim::run_write(pc, false);
@@ -351,6 +385,10 @@ pub fn shrink(case: &AnyCase) -> Vec<AnyCase> {
         AnyCase::Shuttle(_) => vec![],
         AnyCase::Text(t) => textsim::shrink_text(t).into_iter().map(AnyCase::Text).collect(),
         AnyCase::Sql(q) => textsim::shrink_sql(q).into_iter().map(AnyCase::Sql).collect(),
+        AnyCase::Cli(c) => clisim::shrink_cli(c).into_iter().map(AnyCase::Cli).collect(),
+        AnyCase::Conv(c) => clisim::shrink_conv(c).into_iter().map(AnyCase::Conv).collect(),
+        AnyCase::Merge(c) => clisim::shrink_merge(c).into_iter().map(AnyCase::Merge).collect(),
+        AnyCase::Avg(c) => clisim::shrink_avg(c).into_iter().map(AnyCase::Avg).collect(),
     }
 }
 
@@ -369,7 +407,8 @@ pub fn explicit_schedule(prop: &str, case: &AnyCase) -> AnyCase {
             }
         }
         AnyCase::Multi(m) => AnyCase::Multi(pipeprops::explicit_c11(m)),
-        AnyCase::Enum(_) | AnyCase::Read(_) | AnyCase::Enc(_) | AnyCase::Tfb(_) | AnyCase::Text(_) | AnyCase::Sql(_) => case.clone(),
+        AnyCase::Enum(_) | AnyCase::Read(_) | AnyCase::Enc(_) | AnyCase::Tfb(_) | AnyCase::Text(_) | AnyCase::Sql(_) | AnyCase::Cli(_) | AnyCase::Merge(_) | AnyCase::Avg(_) => case.clone(),
+        AnyCase::Conv(c) => AnyCase::Conv(clisim::explicit_conv(c)),
         AnyCase::Shuttle(sc) => AnyCase::Shuttle(tfbsim::explicit_shuttle(sc)),
     }
 }
